@@ -950,7 +950,7 @@ for (n = 0; n < operand_count; n++)
         {
           // ld<zz><.x><.aa><di> a, [b, limm]    (c = limm)
           // ld<zz><.x><.aa><di> 0, [b, limm]    (c = limm)
-          if (operands[0].value == OPERAND_REG)
+          if (operands[0].type == OPERAND_REG)
           {
             opcode |=
               operands[0].value |
@@ -966,7 +966,7 @@ for (n = 0; n < operand_count; n++)
             return 8;
           }
             else
-          if (operands[0].value == OPERAND_NUMBER)
+          if (operands[0].type == OPERAND_NUMBER && operands[0].value == 0)
           {
             opcode |=
               LIMM |
@@ -992,7 +992,7 @@ for (n = 0; n < operand_count; n++)
         {
           // ld<zz><.x><di>      a, [limm, c]    (b = limm)
           // ld<zz><.x><di>      0, [limm, c]    (b = limm)
-          if (operands[0].value == OPERAND_REG)
+          if (operands[0].type == OPERAND_REG)
           {
             opcode |=
               operands[0].value |
@@ -1008,7 +1008,7 @@ for (n = 0; n < operand_count; n++)
             return 8;
           }
             else
-          if (operands[0].value == OPERAND_NUMBER)
+          if (operands[0].type == OPERAND_NUMBER && operands[0].value == 0)
           {
             opcode |=
               LIMM |
